@@ -230,6 +230,48 @@ def lifted_big(ctx, s, classify, big):
                           f"got {got.get(k)} want {want.get(k)}", rp)
 
 
+def affix_lift(ctx, s, classify, target):
+    """Sequences far longer than the session's (implementation thresholds on the LENGTH: 32 / 40 / 64 / 128 letters, narrow integer
+    types for distances). s is a session TraceNN has just accepted. Every sequence is wrapped into one common prefix and one common
+    suffix - a common affix changes neither the Levenshtein nor the Hamming distance of a pair (it is matched letter by letter in an
+    optimal alignment), so the accepted triplets ARE the answer for the long sequences, whose lengths now lie on both sides of
+    `target`. A few unrelated fillers of 200 - 320 letters are appended: their lengths differ from everything else by more than
+    max_edits, so they are neighbours of nothing, and their distances to the others exceed 127."""
+    inp = s["inp"]
+    join = next(e for e in s["events"] if e["op"] == "Join")
+    letters, api = s["letters"], (s["api"] or None)
+    nl = len(letters)
+    lens = sorted(len(x) for x in inp["seqs"])
+    pad = max(4, target - lens[len(lens) // 2])
+    pre = [ctx.rng.randrange(nl) for _ in range(pad // 2)]
+    suf = [ctx.rng.randrange(nl) for _ in range(pad - pad // 2)]
+    fill = [[ctx.rng.randrange(nl) for _ in range(L)] for L in (200, 260, 320)]
+    binp = dict(inp)
+    binp["seqs"] = [pre + list(x) + suf for x in inp["seqs"]] + fill
+    if inp["two"]:
+        binp["seqs2"] = [pre + list(x) + suf for x in inp["seqs2"]] + [f[::-1] + [0] * 17 for f in fill]
+    want = {(a, b_): d for a, b_, d in join["ret"]}
+    desc = f"{describe(inp, letters, api)[:260]} with every sequence wrapped into a common prefix + suffix of {pad} letters (lengths around {target}) and 3 unrelated fillers"
+    ctx.case(dict(kind="long-sequences", call=desc, target=target, expect_pairs=len(want)), nontrivial=len(want) > 0)
+    ctx.extra.setdefault("long_sequence_inputs", []).append(dict(engine=inp["engine"], mode=inp["mode"], two=inp["two"], k=inp["k"], lengths_around=target, expected_pairs=len(want)))
+    rp = dict(kind="long-sequences", session=s, pre=pre, suf=suf, fill=fill)
+    try:
+        got_l = nc.norm_triplets(nc.call_engine(binp, letters, api=api), inp["mode"])
+    except Exception as e:      # noqa: BLE001
+        ctx.violation(classify(inp, "raised") + "/long-sequences", f"{desc} raised {type(e).__name__}: {e}"[:500], rp)
+        return
+    got, dup = {}, 0
+    for a, b_, d in got_l:
+        dup += (a, b_) in got
+        got[(a, b_)] = d
+    if dup:
+        ctx.violation(classify(inp, "repeated_pair") + "/long-sequences", f"{desc}: {dup} pairs reported more than once", rp)
+    for name, lst in (("missing_pair", [k for k in want if k not in got]), ("spurious_pair", [k for k in got if k not in want]),
+                      ("entry_differs", [k for k in want if k in got and got[k] != want[k]])):
+        if lst:
+            ctx.violation(classify(inp, name) + "/long-sequences", f"{desc}: {len(lst)} x {name}, e.g. positions {lst[0]}: got {got.get(lst[0])} want {want.get(lst[0])}", rp)
+
+
 def inp_ok_for_huge(s):
     i = s["inp"]
     return i["engine"] in ("symdel", "kd") and i["mode"] == "lev" and i["k"] == 1 and not i["two"] and i.get("comp", 1) == 1 and s["letters"] == AA
@@ -248,6 +290,7 @@ def filler(i):
 
 
 def huge_sparse(ctx, s, classify, n_fill=50000):
+    assert n_fill <= 3 ** 10, "filler(i) repeats beyond 3^10"
     """tens of thousands of positions (products of positions beyond 2^31): fillers that are neighbours of nothing at max_edits = 1,
     followed by the sequences of an ACCEPTED session; the exact answer is the accepted answer shifted by the number of fillers."""
     inp = s["inp"]
@@ -285,7 +328,7 @@ def judge_sessions(ctx, sessions, verdicts, classify=default_classify, lifted=No
         if (not getattr(ctx, "_huge_done", False) and not api and s.get("kind") == "plain" and inp_ok_for_huge(s) and 3 <= len(s["inp"]["seqs"]) <= 60
                 and sum(1 for e in s["events"] if e["op"] == "Join" and not e["raised"]) == 1 and any(e["op"] == "Join" and e["ret"] for e in s["events"])):
             ctx._huge_done = True
-            huge_sparse(ctx, s, classify, 50000 if ctx.quick else 70000)
+            huge_sparse(ctx, s, classify, 50000 if ctx.quick else 59049)        # 3^10 = 59049 distinct fillers exist
         bkey = (s["inp"]["engine"], bool(s["inp"]["two"]))
         if (budget.get(bkey, lifted) > 0 and not api and s.get("kind") == "plain" and s["inp"]["mode"] in ("lev", "hamming") and 4 <= len(s["inp"]["seqs"]) <= 40
                 and (s["inp"]["engine"] != "hash" or s["inp"]["k"] == 1) and not any(e["op"] == "Join" and e["raised"] for e in s["events"])
@@ -293,6 +336,15 @@ def judge_sessions(ctx, sessions, verdicts, classify=default_classify, lifted=No
             budget[bkey] = budget.get(bkey, lifted) - 1
             from . import lifted as lf
             lifted_big(ctx, s, classify, lf.boundary_size(budget[bkey] + ctx.seed + len(s["inp"]["seqs"])))
+        akey = ("affix",) + bkey
+        if (budget.get(akey, 1 if ctx.quick else 4) > 0 and not api and s.get("kind") == "plain" and s["inp"]["mode"] in ("lev", "hamming")
+                and 3 <= len(s["inp"]["seqs"]) <= 60 and max(len(x) for x in s["inp"]["seqs"]) <= 30
+                and (s["inp"]["engine"] != "hash" or s["inp"]["k"] == 1) and s["inp"]["k"] <= 2
+                and not any(e["op"] == "Join" and e["raised"] for e in s["events"]) and sum(1 for e in s["events"] if e["op"] == "Join") == 1
+                and any(e["op"] == "Join" and e["ret"] for e in s["events"])):
+            budget[akey] = budget.get(akey, 1 if ctx.quick else 4) - 1
+            for target in (40, 64, 128, 32):
+                affix_lift(ctx, s, classify, target)
         for l, op, clause in api:
             ev = s["events"][l - 1]
             ctx.violation(classify(s["inp"], clause),
